@@ -210,17 +210,40 @@ class G:
             self.w(' \\end{itemize}')
         elif k == 'head':
             self.w('\n\n\\section{')
+            if self.depth == 1 and len(self.stack) == 1 and not self.infoot and r.random() < .3:
+                # a hard switch at the start of a heading of the main flow: holds from there on
+                lang = self.other()
+                self.w('\\selectlanguage{%s}' % lang)
+                self.stack[-1] = LMAP[lang]
+                self.kinds['head_sel'] += 1
             self.seq(r.randint(1, 2))
             self.w('}\n\n')
         elif k == 'foot':
+            top = self.depth == 1 and len(self.stack) == 1      # called at the top level of the main flow
             self.infoot = True
             sv = self.stack
             self.stack = [sv[-1]]
             self.w('\\footnote{')
             self.seq(r.randint(1, 3))
+            selx = None
+            if r.random() < .35:
+                # a hard switch at the top level of the footnote: holds for the rest of the footnote only
+                selx = self.other()
+                self.w(' \\selectlanguage{%s} ' % selx)
+                self.stack[-1] = LMAP[selx]
+                self.word()
+                self.kinds['foot_sel'] += 1
             self.w('}')
             self.stack = sv
             self.infoot = False
+            if selx and top and LMAP[selx] != self.stack[-1] and r.random() < .6:
+                # ... and the main flow then switches to that very language
+                self.w(' ')
+                self.word()
+                self.w(' \\selectlanguage{%s} ' % selx)
+                self.stack[-1] = LMAP[selx]
+                self.word()
+                self.kinds['foot_sel_then_main_sel'] += 1
         self.depth -= 1
 
     def same_nested(self, wrap, lang):
@@ -406,7 +429,7 @@ class C12(core.Check):
 
     def quotas(self, tier):
         q = {'docs_multi': 3000, 'probes_joined': 300, 'probes_split': 300, 'babel_options_2': 100, 'babel_options_3': 100}
-        for k in ('fl', 'ol', 'sel', 'same', 'sel_in', 'foot', 'head', 'decl', 'optend', 'ol_lines', 'compound', 'mbox_fl', 'probe_same_language_nested'):
+        for k in ('fl', 'ol', 'sel', 'same', 'sel_in', 'foot', 'head', 'decl', 'optend', 'ol_lines', 'compound', 'mbox_fl', 'probe_same_language_nested', 'foot_sel', 'foot_sel_then_main_sel', 'head_sel'):
             q['kind_' + k] = 200
         return q
 
